@@ -105,9 +105,22 @@ func runC08(c *sim.Ctx) *sim.Violation {
 			}
 		}
 	}
-	for _, k := range ks {
+	// thorough, small frames: every k x {EOF,E} x {error after, error with the last bytes}
+	allCombos := c.Thorough && L <= 300
+	if allCombos {
+		ks4 := make([]int, 0, 4*len(ks))
+		for _, k := range ks {
+			ks4 = append(ks4, k, k, k, k)
+		}
+		ks = ks4
+		c.Count("sweep.every-cut-offset-x-4-fault-styles.frames")
+	}
+	for ki, k := range ks {
 		kind := t.Int(2) // 0 EOF, 1 E
 		withData := t.Bool(1, 2)
+		if allCombos {
+			kind, withData = ki%2, (ki/2)%2 == 1
+		}
 		var E error = io.EOF
 		kindName := "EOF"
 		if kind == 1 {
